@@ -70,7 +70,8 @@ func Walk(ins []gen.Inst, key uint32, op ring.Operation, rf int, zoneAware bool)
 		if taken[c.i] {
 			continue
 		}
-		if zoneAware && zoneTaken[in.Zone] {
+		// an instance without a zone belongs to no availability zone: the one-per-zone rule does not bind it
+		if zoneAware && in.Zone != "" && zoneTaken[in.Zone] {
 			w.ZoneSkip = true
 			continue
 		}
@@ -81,7 +82,7 @@ func Walk(ins []gen.Inst, key uint32, op ring.Operation, rf int, zoneAware bool)
 			continue
 		}
 		counted++
-		if zoneAware {
+		if zoneAware && in.Zone != "" {
 			zoneTaken[in.Zone] = true
 		}
 	}
@@ -90,7 +91,12 @@ func Walk(ins []gen.Inst, key uint32, op ring.Operation, rf int, zoneAware bool)
 
 // Healthy is the health predicate of the statement for a heartbeat timeout of timeoutSec.
 func Healthy(in gen.Inst, op ring.Operation, timeoutSec int64) bool {
-	return op.IsInstanceInStateHealthy(in.State) && in.AgeSec <= timeoutSec
+	return HealthyAt(in, op, timeoutSec*1000, 0)
+}
+
+// HealthyAt: the heartbeat is (AgeSec seconds + fracMs milliseconds) old, the timeout is timeoutMs.
+func HealthyAt(in gen.Inst, op ring.Operation, timeoutMs int64, fracMs int64) bool {
+	return op.IsInstanceInStateHealthy(in.State) && in.AgeSec*1000+fracMs <= timeoutMs
 }
 
 // Expect is the expected lookup result.
@@ -103,6 +109,11 @@ type Expect struct {
 
 // Lookup combines Walk and the majority arithmetic of the statement.
 func Lookup(ins []gen.Inst, key uint32, op ring.Operation, rf int, zoneAware bool, timeoutSec int64) (Walked, Expect) {
+	return LookupAt(ins, key, op, rf, zoneAware, timeoutSec*1000, 0)
+}
+
+// LookupAt is Lookup at an instant fracMs milliseconds past a whole second, with a timeout in milliseconds.
+func LookupAt(ins []gen.Inst, key uint32, op ring.Operation, rf int, zoneAware bool, timeoutMs, fracMs int64) (Walked, Expect) {
 	w := Walk(ins, key, op, rf, zoneAware)
 	if w.Empty {
 		return w, Expect{Err: true}
@@ -113,7 +124,7 @@ func Lookup(ins []gen.Inst, key uint32, op ring.Operation, rf int, zoneAware boo
 	}
 	var e Expect
 	for _, id := range w.IDs {
-		if Healthy(byID[id], op, timeoutSec) {
+		if HealthyAt(byID[id], op, timeoutMs, fracMs) {
 			e.IDs = append(e.IDs, id)
 		} else {
 			e.Filtered = true
